@@ -36,10 +36,10 @@ RULE = ("one connector with ample power, no generation; 1-3 vehicles with one st
         "and had discouraged steps in its standing time; distinct = distinct (seed, index, kind)")
 ASSUMPTIONS = ["station power in a discouraged step counts as charging if > 1e-5 kW (the code's EPS)",
                "desired SoC tolerance 1e-4", "equal energy = within 1e-3 kWh; cost comparison tolerance 1e-6"]
-UNPROVED = ["window/price following of peak_load_window, flex_window and balanced_market is decided by the oracle on "
-            "real runs (no Lean model of these strategies)",
-            "'balanced_market never pays more than greedy' is an optimality claim about an unmodelled algorithm: paired "
-            "real runs only"]
+UNPROVED = ["the run-level sentences (no grid energy in discouraged periods over a whole standing period, desired SoC still "
+            "reached, balanced_market never dearer than greedy) have no theorem: oracle on real runs; the C11_* theorems "
+            "state the corresponding per-step / per-plan facts on the strategy models (tied bit for bit in this stream)",
+            "peak_load_window: false when the headroom binds too late for evenly re-planned charging (findings P1a/P1b)"]
 T0 = scen.T0
 
 
